@@ -104,12 +104,48 @@ func (c *Ctx) anchors() *Anchors {
 		}
 		return out
 	}
-	for _, f := range cand {
+	invokesResolver := func(f *ssa.Function) bool {
 		for _, ci := range callsIn(f) {
 			cc := ci.Common()
-			if onRoot(f) && cc.IsInvoke() && cc.Method.Name() == "Resolve" && c.isNamed(cc.Value.Type(), "Resolver") && c.hasParam(f, "Field") {
+			if cc.IsInvoke() && cc.Method.Name() == "Resolve" && c.isNamed(cc.Value.Type(), "Resolver") {
+				return true
+			}
+		}
+		return false
+	}
+	// the field resolver is what the selection walker calls for a *Field selection; the invocation of
+	// Resolver.Resolve may sit in a helper of its own one or two calls below it
+	if w := c.selWalker(); w != nil {
+		for _, f := range staticCallees(w) {
+			if !onRoot(f) || !c.hasParam(f, "Field") || f == w {
+				continue
+			}
+			ok := invokesResolver(f)
+			for _, g := range staticCallees(f) {
+				if ok {
+					break
+				}
+				if g == w || c.hasParam(g, "List") {
+					continue
+				}
+				ok = invokesResolver(g)
+				for _, h := range staticCallees(g) {
+					if !ok && h != w && !c.hasParam(h, "List") {
+						ok = invokesResolver(h)
+					}
+				}
+			}
+			if ok {
 				a.field = f
 			}
+		}
+	}
+	for _, f := range cand {
+		if a.field != nil {
+			break
+		}
+		if onRoot(f) && c.hasParam(f, "Field") && invokesResolver(f) {
+			a.field = f
 		}
 	}
 	if a.field == nil {
@@ -132,9 +168,7 @@ func (c *Ctx) anchors() *Anchors {
 	if a.walker == nil {
 		miss("selection walker")
 	}
-	if a.skip == nil {
-		miss("directive evaluator")
-	}
+	// the directive evaluator may be written out inside the walker: only the rules of C09 need it by itself
 	for _, f := range cand {
 		// dispatcher: calls the list resolver and has a Type-typed parameter, returns (interface{}, []error)
 		if a.list != nil && onRoot(f) && c.callTo(f, a.list) != nil && c.hasParam(f, "Type") && f != a.list {
@@ -154,12 +188,51 @@ func (c *Ctx) anchors() *Anchors {
 			}
 		}
 		for _, f := range cand {
-			if f != a.walker && c.callTo(f, a.walker) != nil && a.dispatch != nil && c.callTo(a.dispatch, f) != nil {
+			if f != a.walker && f != a.dispatch && c.callTo(f, a.walker) != nil && a.dispatch != nil && c.callTo(a.dispatch, f) != nil {
 				a.fieldSels = f
 			}
 		}
+		// no function in between: the dispatcher hands selection sets to the walker itself
+		if a.fieldSels == nil && a.dispatch != nil && c.callTo(a.dispatch, a.walker) != nil {
+			a.fieldSels = a.walker
+		}
 	}
-	for _, cal := range staticCallees(a.field) {
+	// what the field resolver calls, directly or through a helper of its own
+	fieldCallees := staticCallees(a.field)
+	{
+		seen := map[*ssa.Function]bool{a.field: true, a.dispatch: true, a.list: true, a.walker: true}
+		for _, f := range fieldCallees {
+			seen[f] = true
+		}
+		for _, f := range staticCallees(a.field) {
+			if f == a.dispatch || f == a.list || f == a.walker || f.Signature.Recv() == nil && len(f.Params) == 0 {
+				continue
+			}
+			// a helper, not one of the roles themselves
+			res := f.Signature.Results()
+			isRole := (res.Len() == 2 && isStrIfaceMap(res.At(0).Type())) || (res.Len() == 1 && isErrSlice(res.At(0).Type())) || (res.Len() == 1 && c.isNamed(res.At(0).Type(), "FieldDef"))
+			if isRole {
+				continue
+			}
+			hasResolverInvoke := false
+			for _, ci := range callsIn(f) {
+				cc := ci.Common()
+				if cc.IsInvoke() && cc.Method.Name() == "Resolve" && c.isNamed(cc.Value.Type(), "Resolver") {
+					hasResolverInvoke = true
+				}
+			}
+			if !hasResolverInvoke {
+				continue
+			}
+			for _, g := range staticCallees(f) {
+				if !seen[g] {
+					seen[g] = true
+					fieldCallees = append(fieldCallees, g)
+				}
+			}
+		}
+	}
+	for _, cal := range fieldCallees {
 		res := cal.Signature.Results()
 		switch {
 		case res.Len() == 2 && isStrIfaceMap(res.At(0).Type()) && isErrSlice(res.At(1).Type()):
